@@ -1433,6 +1433,10 @@ func (h *ResponseHeader) setSpecialHeader(key, value []byte) bool {
 			if contentLength, err := parseContentLength(value); err == nil {
 				h.contentLength = contentLength
 				h.contentLengthBytes = append(h.contentLengthBytes[:0], value...)
+				// A length replaces the chunked coding chosen for a body of
+				// unknown size, as SetContentLength does: both together would
+				// frame the same body in two contradicting ways.
+				h.h = delAllArgsStable(h.h, HeaderTransferEncoding)
 			}
 			return true
 		case caseInsensitiveCompare(strContentEncoding, key):
